@@ -28,6 +28,9 @@ func vhC08Kernel() {
 	if total > 0 && current >= 0 && current < total {
 		// nearest cell: |cells*total - width*current| <= total/2 + slack of one float tie
 		vAssert(vMulDiffWithin(cells, total, w, current, 1, total), "C08.kernel.proportional")
+		// the float result is off by far less than 2^-20 of a cell on either branch (64-bit and 128-bit product):
+		// the nearest cell up to that slack around a tie
+		vAssert(vMulDiffWithin(cells, total, w, current, 2, total+total>>20+2), "C08.kernel.nearest-up-to-float-slack")
 		if total <= 1<<32 {
 			// below 2^32 the float error (3 ulp) cannot cross a rounding tie: exactly the nearest cell
 			vAssert(vMulDiffWithin(cells, total, w, current, 2, total), "C08.kernel.nearest")
